@@ -15,7 +15,10 @@ from hypothesis import strategies as st
 
 from .common import HarnessError, snapshot, snapshot_diff
 
-BUDGETS = [0.01, 0.1, 0.3, 0.5, 0.9, 1.0]
+# incl. budgets whose reciprocal is not (close to) an integer: 1/0.15 = 6.67,
+# 1/0.35 = 2.86, 1/0.6 = 1.67 (floor and round differ)
+BUDGETS = [0.01, 0.1, 0.3, 0.5, 0.9, 1.0, 0.15, 0.35, 0.6, 0.07, 0.25]
+_FREE_BUDGET = st.floats(0.02, 0.98).map(lambda v: round(v, 3))
 WINDOWS = [1, 2, 5, 20, 100]
 CLASS_SETS = [[0, 1], [0, 1, 2]]
 SEEDS = st.integers(0, 2**31 - 2)
@@ -414,6 +417,8 @@ def manager_config(draw, name, classes=None, budget=None):
         cfg[k] = draw(st.sampled_from(vals))
     if budget is not None:
         cfg["budget"] = budget
+    elif draw(st.integers(0, 4)) == 0:
+        cfg["budget"] = draw(_FREE_BUDGET)
     if spec.get("takes_classes"):
         cfg["classes"] = list(classes if classes is not None
                               else draw(st.sampled_from(CLASS_SETS)))
@@ -428,6 +433,8 @@ def strategy_config(draw, name, classes):
     cfg = {}
     for k, vals in spec["params"].items():
         cfg[k] = draw(st.sampled_from(vals))
+    if draw(st.integers(0, 4)) == 0:
+        cfg["budget"] = draw(_FREE_BUDGET)
     if name == "StreamProbabilisticAL" and cfg["metric"] is None:
         cfg["metric_dict"] = None
     if spec.get("takes_classes"):
